@@ -96,7 +96,7 @@ func main() {
 	cfg := &packages.Config{
 		Mode: packages.NeedName | packages.NeedFiles | packages.NeedCompiledGoFiles | packages.NeedSyntax |
 			packages.NeedTypes | packages.NeedTypesInfo | packages.NeedImports | packages.NeedDeps,
-		Dir:        *repo,
+		Dir: *repo,
 		Env: append(os.Environ(), "GOFLAGS=-mod=mod", "GOPROXY=off", "GOSUMDB=off", "GOTOOLCHAIN=local",
 			"PATH=/opt/veriftools/go1.26.8/bin:"+os.Getenv("PATH")),
 		BuildFlags: []string{"-tags=verif"},
